@@ -809,6 +809,10 @@ class UnitDatabase(Singleton):
             self.unit_to_unit_info[unit] = info
             # A unit previously checked as invalid for a category may now be valid.
             self._category_unit_valid.clear()
+            if FixUnitIfIsLegacy(unit)[0]:
+                # Up to now this symbol was read as the legacy spelling of another unit: the quantities
+                # interned for it under that reading must not answer for the unit registered now.
+                self.quantities_cache.clear()
         quantity_type_list = self.quantity_types.setdefault(quantity_type, [])
 
         if unit in [q.unit for q in quantity_type_list]:
